@@ -442,6 +442,13 @@ def parse_kind(s):
             if n.id in m:
                 return m[n.id]
             return ('opaque', n.id)
+        if isinstance(n, _ast.Subscript) and isinstance(n.slice, _ast.Slice):
+            base = n.value.id
+            if base.startswith(('int', 'uint')):
+                return ('array', 'int', base)
+            if base.startswith('float'):
+                return ('array', 'real', base)
+            return ('array', 'pstr' if STRING_MODE[0] == 'opaque' else 'str', 'str')
         if isinstance(n, _ast.Subscript):
             head = n.value.id
             args = n.slice.elts if isinstance(n.slice, _ast.Tuple) else [n.slice]
